@@ -187,6 +187,10 @@ func unmarshal1(na datamodel.NodeAssembler, tokSrc shared.TokenSource, budget *i
 //	to flow right without a peek+unpeek system.
 func unmarshal2(na datamodel.NodeAssembler, tokSrc shared.TokenSource, tk *tok.Token, budget *int64, depth int64, options DecodeOptions) error {
 	// FUTURE: check for schema.TypedNodeBuilder that's going to parse a Link (they can slurp any token kind they want).
+	// DAG-CBOR permits exactly one tag (42, for links), and only on a byte string; a tag on anything else is rejected.
+	if tk.Tagged && tk.Type != tok.TBytes {
+		return fmt.Errorf("unhandled cbor tag %d", tk.Tag)
+	}
 	switch tk.Type {
 	case tok.TMapOpen:
 		if depth >= options.maxDepth() {
@@ -224,6 +228,9 @@ func unmarshal2(na datamodel.NodeAssembler, tokSrc shared.TokenSource, tk *tok.T
 				}
 				return ma.Finish()
 			case tok.TString:
+				if tk.Tagged {
+					return fmt.Errorf("unhandled cbor tag %d", tk.Tag)
+				}
 				*budget -= int64(len(tk.Str) + mapEntryCost)
 				if *budget < 0 {
 					return ErrAllocationBudgetExceeded
